@@ -26,7 +26,7 @@ ASSUMPTIONS = ['ThreadSanitizer (happens-before, clang 14) sees only instrumente
                'schedules are perturbed (seeded yields/sleeps between items, OS scheduling), not enumerated; no XERCES_VERIF_HOOKS sites exist',
                'a data-race report / digest mismatch / crash observed once is evidence (replay = up to 6 attempts); only hangs need 3/3',
                'known findings are stepped over by a main-thread warm-up of exactly the racy facility (counted in excluded_known)']
-BUDGET = {'quick': 32, 'thorough': 400}
+BUDGET = {'quick': 24, 'thorough': 400}
 WALLCAP = {'quick': 500, 'thorough': 4500}
 
 # ---------------------------------------------------------------------------------------------------------------
